@@ -1289,7 +1289,7 @@ FIXED_CORPUS = [
 ]
 
 
-def _rand_filter(rng, ts, leap, moys_src, whole_year_only=True):
+def _rand_filter(rng, ts, leap, moys_src, whole_year_only=True, outside_ok=True):
     step = 60 // ts
     r = rng.random()
     nd = 366 if leap else 365
@@ -1304,7 +1304,7 @@ def _rand_filter(rng, ts, leap, moys_src, whole_year_only=True):
     if r < 0.6:
         k = rng.choice([1, 2, 5, 30])
         pick = sorted(set(rng.choice(moys_src) for _ in range(k)))
-        if rng.random() < 0.2:
+        if outside_ok and rng.random() < 0.2:      # a step that may lie outside a sparse source (ignored there)
             pick.append((pick[-1] + step) % (nd * 1440))
         return {'kind': rng.choice(['moys', 'hoys']), 'moys': sorted(set(pick))}
     if r < 0.85:
@@ -1368,7 +1368,7 @@ def _oracle_cases(ctx):
         else:
             inp = {'kind': 'sparse', 'ts': ts, 'leap': leap, 'moys': _rand_sparse(rng, ts, leap, 20)}
         src = _moys_of(inp)
-        f = _rand_filter(rng, ts, leap, src, inp['kind'] == 'annual')
+        f = _rand_filter(rng, ts, leap, src, inp['kind'] == 'annual', inp['kind'] != 'partial')
         if f['kind'] == 'sun_up' and len(src) > 9000:
             continue
         if f['kind'] == 'period' and inp['kind'] != 'annual':
